@@ -1,7 +1,7 @@
 """Rules for the analytic (ODE) entry points: R2/R3 via the flag-enumerating
 abstract interpreter, time grid, conservation by construction, R4 state-vector
 layout agreement, R6 node/position kinds, degree-class role agreement."""
-import ast
+import ast, functools
 import re
 
 from ..core import own_nodes, attr_chain, short, names_in, AnalysisError, Func, resolve_callee
@@ -279,6 +279,130 @@ def _rhs_sums_to_zero(g):
 
 
 # ---------------------------------------------------------------------------
+# case enumeration for the edge tally of _count_edge_types_
+# ---------------------------------------------------------------------------
+class _NoCase(Exception):
+    pass
+
+
+def _edge_case_table(fnode):
+    """{(a, b): {counter: increment}} for a, b in S/I/R: the body of the loop over G.edges() evaluated with the end
+    statuses fixed (finite case analysis over literals; no code is run).  None if the loop uses anything but tests on the
+    two end statuses, literal temporaries and += of literals on plain names."""
+    loops = [n for n in own_nodes(fnode) if isinstance(n, ast.For) and _k(n.iter) in ("G.edges()", "G.edges")
+             and isinstance(n.target, ast.Tuple) and len(n.target.elts) == 2 and all(isinstance(e, ast.Name) for e in n.target.elts)]
+    if len(loops) != 1:
+        return None
+    lp = loops[0]
+    u, v = (e.id for e in lp.target.elts)
+
+    def ev(e, env):
+        if isinstance(e, ast.Constant):
+            return e.value
+        if isinstance(e, ast.Name):
+            if e.id in env:
+                return env[e.id]
+            raise _NoCase
+        if isinstance(e, ast.Subscript):
+            if _k(e.value) == "status" and isinstance(e.slice, ast.Name) and e.slice.id in (u, v):
+                return env["status[%s]" % e.slice.id]
+            base = ev(e.value, env)
+            if isinstance(base, (tuple, str)) and not isinstance(e.slice, ast.Slice):
+                i = ev(e.slice, env)
+                if isinstance(i, int) and -len(base) <= i < len(base):
+                    return base[i]
+            raise _NoCase
+        if isinstance(e, ast.Tuple):
+            return tuple(ev(x, env) for x in e.elts)
+        if isinstance(e, (ast.List, ast.Set)):
+            return frozenset(ev(x, env) for x in e.elts) if isinstance(e, ast.Set) else tuple(ev(x, env) for x in e.elts)
+        if isinstance(e, ast.UnaryOp) and isinstance(e.op, ast.Not):
+            return not ev(e.operand, env)
+        if isinstance(e, ast.BoolOp):
+            vals = [ev(x, env) for x in e.values]          # all operands are effect-free here
+            if not all(isinstance(x, bool) for x in vals):
+                raise _NoCase
+            return all(vals) if isinstance(e.op, ast.And) else any(vals)
+        if isinstance(e, ast.BinOp) and isinstance(e.op, ast.Add):
+            a, b = ev(e.left, env), ev(e.right, env)
+            if type(a) is type(b) and isinstance(a, (str, tuple, int)):
+                return a + b
+            raise _NoCase
+        if isinstance(e, ast.IfExp):
+            return ev(e.body, env) if ev(e.test, env) is True else ev(e.orelse, env)
+        if isinstance(e, ast.Compare):
+            left = ev(e.left, env)
+            res = True
+            for op, c in zip(e.ops, e.comparators):
+                right = ev(c, env)
+                if isinstance(op, (ast.Eq, ast.Is)):
+                    r = left == right
+                elif isinstance(op, (ast.NotEq, ast.IsNot)):
+                    r = left != right
+                elif isinstance(op, ast.In) and isinstance(right, (tuple, frozenset, str)):
+                    r = left in right
+                elif isinstance(op, ast.NotIn) and isinstance(right, (tuple, frozenset, str)):
+                    r = left not in right
+                else:
+                    raise _NoCase
+                res = res and r
+                left = right
+            return res
+        if isinstance(e, ast.Call) and _k(e.func) in ("sorted", "tuple", "frozenset", "set") and len(e.args) == 1 and not e.keywords:
+            a = ev(e.args[0], env)
+            if isinstance(a, (tuple, frozenset)):
+                return {"sorted": lambda x: tuple(sorted(x)), "tuple": tuple, "frozenset": frozenset, "set": frozenset}[_k(e.func)](a)
+            raise _NoCase
+        raise _NoCase
+
+    def run(body, env, acc):
+        for st in body:
+            if isinstance(st, ast.Pass):
+                continue
+            if isinstance(st, ast.Continue):
+                return "continue"
+            if isinstance(st, ast.If):
+                t = ev(st.test, env)
+                if not isinstance(t, bool):
+                    raise _NoCase
+                r = run(st.body if t else st.orelse, env, acc)
+                if r:
+                    return r
+                continue
+            if isinstance(st, ast.AugAssign) and isinstance(st.target, ast.Name) and isinstance(st.op, ast.Add) \
+                    and st.target.id not in env:
+                inc = ev(st.value, env)
+                if not isinstance(inc, int) or isinstance(inc, bool):
+                    raise _NoCase
+                acc[st.target.id] = acc.get(st.target.id, 0) + inc
+                continue
+            if isinstance(st, ast.Assign) and len(st.targets) == 1:
+                tg = st.targets[0]
+                if isinstance(tg, ast.Name) and tg.id not in acc:
+                    env[tg.id] = ev(st.value, env)
+                    continue
+                if isinstance(tg, ast.Tuple) and all(isinstance(x, ast.Name) for x in tg.elts):
+                    val = ev(st.value, env)
+                    if isinstance(val, tuple) and len(val) == len(tg.elts):
+                        for x, y in zip(tg.elts, val):
+                            env[x.id] = y
+                        continue
+            raise _NoCase
+        return None
+
+    out = {"loop": lp}
+    try:
+        for a in "SIR":
+            for b in "SIR":
+                acc = {}
+                run(lp.body, {"status[%s]" % u: a, "status[%s]" % v: b}, acc)
+                out[(a, b)] = acc
+    except _NoCase:
+        return None
+    return out
+
+
+# ---------------------------------------------------------------------------
 # R4 layout
 # ---------------------------------------------------------------------------
 SYN = {"X": "S", "Y": "I", "Z": "R"}
@@ -299,10 +423,28 @@ def stem(name):
     return s
 
 
-def _num(e, sub=3):
+def _size_env(fnode):
+    """Names bound exactly once in the function to an arithmetic expression (pair_count = kcount**2): index
+    expressions are evaluated through them."""
+    seen = {}
+    for n in own_nodes(fnode):
+        for t in (n.targets if isinstance(n, ast.Assign) else [n.target] if isinstance(n, (ast.AugAssign, ast.AnnAssign, ast.For)) else []):
+            for x in ast.walk(t):
+                if isinstance(x, ast.Name):
+                    seen.setdefault(x.id, []).append(n)
+    return {k: v[0].value for k, v in seen.items()
+            if len(v) == 1 and isinstance(v[0], ast.Assign) and isinstance(v[0].targets[0], ast.Name)
+            and isinstance(v[0].value, (ast.BinOp, ast.UnaryOp, ast.Constant))}
+
+
+def _num(e, sub=3, env=None, depth=0):
     """Evaluate an index expression with every size symbol := sub."""
     class V(ast.NodeTransformer):
         def visit_Name(self, n):
+            if env and n.id in env and depth < 4:
+                v = _num(env[n.id], sub, env, depth + 1)
+                if v is not None:
+                    return ast.copy_location(ast.Constant(v), n)
             return ast.copy_location(ast.Constant(sub), n)
 
         def visit_Call(self, n):
@@ -321,10 +463,15 @@ def _num(e, sub=3):
         return None
 
 
+_NUM = _num
+
+
 def _unpack_layout(fnode, vec, transposed):
     """Reads of `vec` (or `vec.T`): list of (stem, (tail?, start, stop|None), node)."""
     out = []
     base = "%s.T" % vec if transposed else vec
+    env = _size_env(fnode)
+    _num = functools.partial(_NUM, env=env)
     for n in own_nodes(fnode):
         if not isinstance(n, ast.Assign) or len(n.targets) != 1:
             continue
@@ -791,7 +938,20 @@ def degree_roles(repo, rep):
     f = repo.f("_count_edge_types_")
     rep.analysed(f)
     n = 0
-    for c in walk_function(f.node):
+    table = _edge_case_table(f.node)
+    if table is not None:
+        # decided by cases: the loop body evaluated for each of the 9 status pairs of an edge's ends
+        want = {("S", "S"): {"SS0": 2}, ("S", "I"): {"SI0": 1}, ("I", "S"): {"SI0": 1}, ("I", "I"): {"II0": 2}}
+        loop = table.pop("loop")
+        for pair in sorted(table):
+            got = {k: v for k, v in table[pair].items() if v}
+            exp = want.get(pair, {})
+            n += 1 if exp else 0
+            rep.ob("ROLE", got == exp, "_count_edge_types_: an edge with end statuses %s adds %s" % (pair, exp or "nothing"),
+                   func=f, node=loop, construct="edge %s -> %s" % (pair, sorted(got.items())),
+                   detail="" if got == exp else "an edge whose ends are %s adds %s to the pair counts, expected %s (same-status pairs "
+                   "count twice, S-I once, recovered ends never)" % (pair, got, exp))
+    for c in ([] if table is not None else walk_function(f.node)):
         st = c.stmt
         if isinstance(st, ast.AugAssign) and _k(st.target) in ("SS0", "SI0", "II0"):
             n += 1
@@ -966,11 +1126,30 @@ def index_roles(repo, rep):
         f = repo.f(name)
         rep.analysed(f)
         n = 0
+        # variables of an inlined helper carry a prefix (__h1_XY0): the pair array they build is named by the rest; a factor
+        # under such a name counts as the function's own X0 / Y0 only when it is nothing but a copy of it
+        allasg = {}
         for x in own_nodes(f.node):
-            if isinstance(x, ast.Assign) and re.fullmatch(r"[XY][XY]0", _k(x.targets[0])) and isinstance(x.value, ast.BinOp) \
+            if isinstance(x, ast.Assign) and len(x.targets) == 1 and isinstance(x.targets[0], ast.Name):
+                allasg.setdefault(x.targets[0].id, []).append(_k(x.value))
+
+        def own(nm):
+            m_ = re.fullmatch(r"__h\d+_(\w+)", nm or "")
+            if m_ and set(allasg.get(nm, [])) == {m_.group(1)}:
+                return m_.group(1)
+            if m_ and m_.group(1) not in params and len(set(allasg.get(m_.group(1), []))) == 1 \
+                    and set(allasg.get(nm, [])) - {"None"} == set(allasg[m_.group(1)]):
+                return m_.group(1)      # computed by the same expression as the function's own local of that name
+            if m_ and m_.group(1) == "X0" and "X0" not in params and set(allasg.get(nm, [])) - {"None"} == {"1-Y0"} \
+                    and set(allasg.get("X0", [])) <= {"1-Y0"}:
+                return "X0"             # the SIS model has no third state: the susceptible vector IS 1 - Y0
+            return nm
+        params = {a.arg for a in f.node.args.posonlyargs + f.node.args.args + f.node.args.kwonlyargs}
+        for x in own_nodes(f.node):
+            if isinstance(x, ast.Assign) and re.fullmatch(r"(__h\d+_)?[XY][XY]0", _k(x.targets[0])) and isinstance(x.value, ast.BinOp) \
                     and isinstance(x.value.op, ast.Mult) and isinstance(x.value.left, ast.Subscript) and isinstance(x.value.right, ast.Subscript):
                 n += 1
-                tgt = _k(x.targets[0])
+                tgt = re.sub(r"^__h\d+_", "", _k(x.targets[0]))
                 parts = {}
                 for side in (x.value.left, x.value.right):
                     sl = side.slice
@@ -981,11 +1160,13 @@ def index_roles(repo, rep):
                             role = "row"
                         elif isinstance(a1, ast.Slice) and isinstance(a0, ast.Constant) and a0.value is None:
                             role = "col"
-                    parts[role] = _k(side.value)
+                    parts[role] = own(_k(side.value))
                 ok = parts.get("row") == tgt[0] + "0" and parts.get("col") == tgt[1] + "0"
                 rep.ob("ROLE", ok, "%s: %s[i,j] = <%s_i %s_j> (row factor %s0, column factor %s0)" % (name, tgt, tgt[0], tgt[1], tgt[0], tgt[1]),
                        func=f, node=x, construct="%s = %s" % (tgt, _k(x.value)),
-                       detail="" if ok else "outer product is transposed: %s[i,j] would hold <%s_i %s_j>" % (tgt, (parts.get("row") or "?")[0], (parts.get("col") or "?")[0]))
+                       detail="" if ok else "%s[i,j] is built from (%s, %s), not from the function's own %s0 and %s0 (transposed, or a "
+                       "different susceptible / infected vector than the one packed into the initial state)" % (
+                           tgt, parts.get("row"), parts.get("col"), tgt[0], tgt[1]))
         rep.floor("ROLE", "%s default pair initial conditions" % name, n, 2)
 
 
